@@ -189,7 +189,7 @@ def c01_4(ctx):
     user = [e for e in calls if norm(e.call.func) == gp]
     ok = bool(dflt) and all(sym.entails(e.reach, none_atom) for e in dflt) and all(sym.entails(e.reach, gi.f_not(none_atom)) for e in user)
     tgt = ctx.p.resolve_expr_static(f.module, ast.Name("deterministic_generate_k", ast.Load()))
-    ctx.check(ok and tgt is rfc, "default-nonce-generator", ctx.where(f), "sign_with_recid: when gen_k is None the nonce does not come from rfc6979.deterministic_generate_k")
+    ctx.check(ok and getattr(tgt, "qualname", None) == rfc.qualname, "default-nonce-generator", ctx.where(f), "sign_with_recid: when gen_k is None the nonce does not come from rfc6979.deterministic_generate_k")
     rp = rfc.params()
     for e in calls:
         args = [norm(a) for a in e.call.args]
